@@ -106,7 +106,7 @@ class FlowMixin:
                 g.assume(idx >= 1)
                 g.assume(idx <= for_ctx.n)
             for inv in invs:
-                g.assume(self.eval_clause(inv, g, extra=self.loop_env(for_ctx, idx)))
+                g.assume(self.eval_clause(inv, g, extra=self.loop_env(for_ctx, idx, g)))
             back2 = []
             self.loop_iteration(stmt, g, results, back2, for_ctx, idx=idx, tag=label + ".generic")
             new_written = set()
@@ -124,14 +124,18 @@ class FlowMixin:
             raise Unsupported("loop write-set did not stabilise")
         return [(o, s) for (o, s, _g) in results]
 
-    def loop_env(self, for_ctx, idx):
-        if for_ctx is None or idx is None:
-            return {}
-        return {"_i": Val(INT, idx)}
+    def loop_env(self, for_ctx, idx, st=None):
+        env = {}
+        if st is not None and st.frames:
+            # loop invariants speak about the *current* values of locals (also of reassigned parameters)
+            env.update(st.frames[0].locals)
+        if for_ctx is not None and idx is not None:
+            env["_i"] = Val(INT, idx)
+        return env
 
     def check_loop_invs(self, st, invs, label, phase, for_ctx, idx):
         for n, inv in enumerate(invs):
-            goal = self.eval_clause(inv, st, extra=self.loop_env(for_ctx, idx))
+            goal = self.eval_clause(inv, st, extra=self.loop_env(for_ctx, idx, st))
             self.emit(st, "loop_invariant", "%s[%d].%s" % (label, n, phase), inv, goal)
 
     def loop_iteration(self, stmt, st, results, back, for_ctx, idx, tag):
@@ -255,8 +259,19 @@ class FlowMixin:
                 lv = self.get_list(s, it)
                 return self.exec_loop(stmt, s, kind="for", for_ctx=lv)
             if isinstance(it, DictValues):
-                lv = self.dict_values_list(s, it)
-                return self.exec_loop(stmt, s, kind="for", for_ctx=lv)
+                # summarised loop shape:  for x in d.values(): x.append(e)
+                body = [b for b in stmt.body if not (isinstance(b, ast.Expr) and isinstance(b.value, ast.Constant))]
+                if (len(body) == 1 and isinstance(body[0], ast.Expr) and isinstance(body[0].value, ast.Call)
+                        and isinstance(body[0].value.func, ast.Attribute) and body[0].value.func.attr == "append"
+                        and isinstance(body[0].value.func.value, ast.Name) and isinstance(stmt.target, ast.Name)
+                        and body[0].value.func.value.id == stmt.target.id and len(body[0].value.args) == 1 and not stmt.orelse):
+                    self.inlined.add("loop shape `for x in d.values(): x.append(e)` summarised by the engine (pointwise append)")
+
+                    def with_item(v, s2):
+                        self.dict_append_all(s2, it.d, v)
+                        return [(N_, s2)]
+                    return self.ev(body[0].value.args[0], s, with_item)
+                raise Unsupported("for over dict values with a body other than `x.append(e)`")
             raise Unsupported("for over %r" % (it,))
         return self.ev(stmt.iter, st, with_iter)
 
